@@ -16,17 +16,25 @@ def main(tier, seed, replay):
         driver="c12",
         driver_args=["--harness", lib.HARNESS],
         driver_timeout=7200,
-        corr_name="corr:generator-registry (model finalize / exported_identifier / package_path / package_name vs the real "
-                  "TypeRegistry.Finalize, ExportedIdentifier, FqcpToPackagePath, PackageName: status, package path and type "
-                  "name of every generated type, over every explored map-iteration order)",
+        corr_name="corr:generator-registry (model finalize / register_manifests / exported_identifier / package_path / package_name vs "
+                  "the real TypeRegistry.Finalize, cmd.RegisterManifests, ExportedIdentifier, FqcpToPackagePath, PackageName: status, "
+                  "package root, package path and type name of every registered type, over every explored map-iteration order and "
+                  "every order in which several manifests are read)",
         trusted=[
             "PARTIAL PROPERTY: 'the output compiles and type-checks against the runtime', 'byte-identical output on every run' and "
             "'the checked-in bindings equal what the generator produces' are NOT decided by proof (no formal Go type checker, no "
             "model of jennifer's rendering): they are decided only by the generator runs of this check - 3 fresh processes per "
             "manifest of the seeded grammar, go build + go vet + go test of the output in a scratch module, byte diff of the "
-            "regenerated checked-in bindings (then declared API by go/ast)",
+            "regenerated checked-in bindings (then declared API by go/ast); every method of every resource is looked up in its "
+            "generated package by go/parser, independently of file names (client method, interface entries, parameter struct; "
+            "the family method-name-spaces uses one wire name in several of the finder / action / REST-method name spaces); "
+            "a set of four projects is generated one after the other against each other's EMITTED manifests (which carry "
+            "dependencyDataTypes copies of foreign types), the dependency manifests being read in every order",
             "decided by proof (for all inputs): identifier validity, termination / absence of panics of the registry, "
-            "the characterisation of duplicates, and - under the stated side conditions - order independence and acyclicity; "
+            "the characterisation of duplicates, that a type is filed under the package root of the manifest that owns it "
+            "whatever copies other manifests carry and in whatever order the manifests are read (owner_wins, "
+            "registration_total, registration_order_independent), and - under the stated side conditions - order "
+            "independence and acyclicity; "
             "the unrestricted versions of order independence, acyclicity and name uniqueness are REFUTED (witness manifests, "
             "replayed on the real generator on every run)",
             "modelled, not verified: Go map iteration (a fixed but arbitrary order per map: the order of the type list and of each "
@@ -40,7 +48,9 @@ def main(tier, seed, replay):
                 "namespace components legal ([A-Za-z0-9_$]+), no namespace called conflictResolution, package paths injective, "
                 "references stay in their package root or go to an earlier registered root, types of one root whose names are "
                 "equal up to case have distinct fully qualified Go names",
-                "dependencyDataTypes (leniently registered) are empty"],
+                "several manifests: every type is an input type of exactly one manifest (NoDup over init ++ input_entries); for a "
+                "type that is ONLY a dependency copy (no owner among the manifests read) the first manifest read wins - left "
+                "unspecified, as the comment in cmd/json.go says"],
         coqchk_modules=["GR.Props.C12"],
         classify=classify,
     )
